@@ -229,6 +229,7 @@ package mcp
 //@ func mcpHandler.dispatchRequest
 //@   counted dispatches
 //@   modifies *
+//@   ensures[C03,C14 method-not-served-is-method-not-found] !served(old(req.Method)) ==> isErr(ret, ErrCodeMethodNotFound, old(req.ID)) && ret1 == nil
 //@
 //@ func mcpHandler.handleRequest$1
 //@   ensures[C15 core-dispatches-exactly-once] dispatches == old(dispatches) + 1
@@ -492,6 +493,7 @@ package mcp
 //@   ensures[C04 no-session-is-deleted-by-a-post] forall k string :: old(live(k)) ==> live(k)
 //@ func httpServerHandler.handlePostRequest
 //@   requires status(w) == 0
+//@   before call (net/http.Header).Set#1 assert[C04 session-header-only-in-stateful-mode] !h.isStateless
 //@   modifies *, status(w), hval, handled
 //@   ensures[C03,C06] status(w) != 0
 //@ func httpServerHandler.handlePostNotification
@@ -512,11 +514,16 @@ package mcp
 //@   ensures[C04 delete-ends-the-session] h.enableSession && old(sidIn(r)) != "" && old(live(sidIn(r))) ==> status(w) == 200 && !live(old(sidIn(r))) && (forall k string :: k != old(sidIn(r)) ==> live(k) == old(live(k)))
 //@ func httpServerHandler.handleGet
 //@   requires status(w) == 0
-//@   modifies *, status(w), hval
+//@   modifies *, status(w), hval, cancels
 //@   ensures[C03,C06 every-get-gets-a-status] status(w) != 0
 //@   ensures[C04 listening-streams-refused-when-disabled-or-stateless] (!h.enableGetSSE || h.isStateless) ==> status(w) == 405
 //@   ensures[C04 listening-stream-without-session-id-is-400] h.enableGetSSE && !h.isStateless && old(sidIn(r)) == "" ==> status(w) == 400
 //@   ensures[C04 listening-stream-for-unknown-session-is-404] h.enableGetSSE && !h.isStateless && old(sidIn(r)) != "" && !old(live(sidIn(r))) ==> status(w) == 404
+//@   before call (*sync.RWMutex).Unlock#1 assert[C11 the-previous-stream-of-the-session-is-cancelled] $exists ==> cancels >= old(cancels) + 1
+//@   callspec getSSEConnection.cancelFunc
+//@     counted cancels
+//@     modifies *, cancels
+//@   end
 //@   before call Flush#1 assert[C11 stream-registered-before-its-headers-are-flushed] (session.GetID() in h.getSSEConnections) && h.getSSEConnections[session.GetID()] == conn && held(conn.writeLock) == 2
 //@   before call (*sync.RWMutex).Unlock#1 assert[C11 registration-replaces-only-this-session] forall k string :: k != session.GetID() ==> ((k in h.getSSEConnections) <==> atlock(k in h.getSSEConnections)) && h.getSSEConnections[k] == atlock(h.getSSEConnections[k])
 //@   before call (*sync.RWMutex).Unlock#2 assert[C11 a-stream-that-ends-removes-only-itself] forall k string :: (k != session.GetID() || atlock(h.getSSEConnections[k]) != conn) ==> ((k in h.getSSEConnections) <==> atlock(k in h.getSSEConnections)) && h.getSSEConnections[k] == atlock(h.getSSEConnections[k])
@@ -549,3 +556,28 @@ package mcp
 //@ func httpServerHandler.respondEncodingFailure
 //@   modifies *, status(w), hval
 //@   ensures[C03 encoding-failure-is-answered] status(w) != 0
+
+// ---------------------------------------------------------------------------
+// C03 / C01 / C14 — what the method handlers answer
+
+//@ ghost stable toolcalls int
+//@ ghost stable cancels int
+//@
+//@ pred isErr(m JSONRPCMessage, code int, id RequestId) = istype(m, *JSONRPCError) && m.(*JSONRPCError) != nil && m.(*JSONRPCError).Error.Code == code && m.(*JSONRPCError).ID == id && m.(*JSONRPCError).JSONRPC == "2.0"
+//@ pred served(m string) = m == "initialize" || m == "ping" || m == "tools/list" || m == "tools/call" || m == "resources/list" || m == "resources/read" || m == "resources/templates/list" || m == "resources/subscribe" || m == "resources/unsubscribe" || m == "prompts/list" || m == "prompts/get" || m == "completion/complete"
+//@ pred callNameOK(req *JSONRPCRequest) = istype(req.Params, map[string]interface{}) && istype(req.Params.(map[string]interface{})["name"], string) && req.Params.(map[string]interface{})["name"].(string) != ""
+//@ pred callArgsOK(req *JSONRPCRequest) = isnil(req.Params.(map[string]interface{})["arguments"]) || istype(req.Params.(map[string]interface{})["arguments"], map[string]interface{})
+//@
+//@ callspec toolHandler
+//@   counted toolcalls
+//@   modifies *, toolcalls
+//@
+//@ func toolManager.handleCallTool
+//@   modifies *, toolcalls
+//@   ensures[C03 never-a-go-error] ret1 == nil
+//@   ensures[C03,C14 missing-or-mistyped-params-or-name-are-invalid-params] !old(callNameOK(req)) ==> isErr(ret, ErrCodeInvalidParams, old(req.ID)) && toolcalls == old(toolcalls)
+//@   ensures[C01,C03,C12 unknown-tool-is-method-not-found-and-nothing-runs] old(callNameOK(req)) && !atlock(req.Params.(map[string]interface{})["name"].(string) in m.tools) ==> isErr(ret, ErrCodeMethodNotFound, old(req.ID)) && toolcalls == old(toolcalls)
+//@   ensures[C03,C14 arguments-that-are-not-an-object-are-invalid-params] old(callNameOK(req)) && atlock(req.Params.(map[string]interface{})["name"].(string) in m.tools) && !old(callArgsOK(req)) ==> isErr(ret, ErrCodeInvalidParams, old(req.ID)) && toolcalls == old(toolcalls)
+//@   ensures[C01,C12 handler-runs-exactly-once-for-a-registered-tool] old(callNameOK(req)) && old(callArgsOK(req)) && atlock(req.Params.(map[string]interface{})["name"].(string) in m.tools) ==> toolcalls == old(toolcalls) + 1
+//@ func toolManager.handleListTools
+//@   ensures[C03 tools-list-result-has-an-array] ret1 == nil && istype(ret, ListToolsResult) && ret.(ListToolsResult).Tools != nil
